@@ -1223,12 +1223,14 @@ theorem initList_reinit : ∀ (g : Nat) (ty : Ty) (top : Bool) (obj : Init) (cur
       rw [initList_item _ _ _ _ _ _ _ _ he] at h
       obtain ⟨toks1, _, h⟩ := bind_eq_ok h
       obtain ⟨⟨ps, t⟩, _, h⟩ := bind_eq_ok h
-      have hr0 : reinitFl ty top obj (isDesg toks1) ps = Flags.none := by
-        apply reinitFl_none_of
-        unfold reinitAt
-        rw [flexIdx_none hty]
+      have hr0 : (fl.join (reinitFl ty top obj (isDesg toks1) ps)).reinit = fl.reinit := by
+        have : reinitAt ty top obj (isDesg toks1) ps = false := by
+          unfold reinitAt
+          rw [flexIdx_none hty]
+        simp [Flags.join, reinitFl, this]
       simp only at h
-      rw [hr0, Flags.join_none] at h
+      rw [← hr0]
+      generalize fl.join (reinitFl ty top obj (isDesg toks1) ps) = fl' at h ⊢
       unfold initItem initItemWith at h
       split at h
       · obtain ⟨_, _, h⟩ := bind_eq_ok h
